@@ -6,6 +6,7 @@ use std::path::{Path, PathBuf};
 pub fn run(name: &str) -> bool {
     match name {
         "worlds" => worlds(),
+        "oracle" => oracle(),
         _ => { eprintln!("unknown gate {}", name); false }
     }
 }
@@ -93,5 +94,22 @@ fn worlds() -> bool {
         }
     }
     if ok { println!("gate worlds: ok"); }
+    ok
+}
+
+/// every text of the version table: the oracle's answer == the real parser's answer
+fn oracle() -> bool {
+    let mut ok = true;
+    for (name, text, parses) in crate::oracle::ALL.iter() {
+        let real = rustpython_parser::parse(text, rustpython_parser::Mode::Module, "");
+        let orc = crate::oracle::oracle_parse(text, rustpython_parser::Mode::Module, "");
+        match (real, orc) {
+            (Ok(a), Ok(b)) => if a != b { eprintln!("gate oracle: AST differs for {}", name); ok = false; },
+            (Err(_), Err(_)) => {}
+            _ => { eprintln!("gate oracle: parse success differs for {}", name); ok = false; }
+        }
+        let _ = parses;
+    }
+    if ok { println!("gate oracle: ok ({} texts)", crate::oracle::ALL.len()); }
     ok
 }
